@@ -4,6 +4,7 @@ import ChythonModel.Proofs.C11Block
 import ChythonModel.Proofs.C11Meta
 import ChythonModel.Proofs.C11Record
 import ChythonModel.Proofs.C11V3000
+import ChythonModel.Proofs.C11RdfFrame
 import ChythonModel.Gen.PeriodicTable
 /-!
 # C11 — MDL write→read preserves the record: property theorems
@@ -320,7 +321,7 @@ theorem v3000_split_join (ts : List Str) (h : ∀ t ∈ ts, Plain t) : v3split (
 
 /-- every element symbol of the regenerated periodic table is a `WFSym3` symbol -/
 theorem symbols_fit_v3000 : ∀ r ∈ ChythonModel.Gen.periodicTable,
-    r.sym.toList ≠ [] ∧ (r.sym.toList.all fun c => !isSpace c && c != '(' && c != '"') = true ∧
+    r.sym.toList ≠ [] ∧ (r.sym.toList.all fun c => !isSpace c && c != '(' && c != Char.ofNat 34) = true ∧
     startsWith r.sym.toList ['['] = false ∧ startsWith r.sym.toList (sL "NOT") = false ∧
     r.sym.toList ≠ ['*'] ∧ r.sym.toList ≠ sL "R#" ∧ r.sym.toList ≠ ['D'] := by decide +kernel
 
@@ -333,5 +334,30 @@ theorem v3000_bond_cfg :
       .ok ((0, 1, 1), [(0, 1, 1)]) ∧
     (writeBond3 exampleMol.atoms (2, 7, 999, 2) >>= fun l => parseBond3 [sL "1", sL "2", sL "3"] (strip (l.drop 7))) =
       .ok ((0, 2, 2), []) := by decide +kernel
+
+/-! ## 8. RDF record framing -/
+
+/-- **rdf_frame_roundtrip**: a file `head ++ marker₁ body₁ marker₂ body₂ …` (`head` = the `$RDFILE/$DATM` lines or any
+    lines that are neither markers nor `$RXN`; every marker starts with `$RFMT`/`$MFMT`; no body line does; bodies are
+    non-empty and smaller than the read-ahead buffer) is iterated as exactly the bodies, in order, each with its
+    `__m_start` = position of its first `$DTYPE` line; rejected records (`ValueError`/`LookupError`) are skipped, the
+    following ones are still read. Replacing one body by arbitrary such lines therefore leaves the others unchanged
+    (damage isolation for RDF; the statement quantifies over all bodies). -/
+theorem rdf_frame_roundtrip (rs : RBlock → R ρ) (bufSize : Nat) (head : List Str) (m : Str) (b : List Str)
+    (rest : List (Str × List Str)) (fuel : Nat) (hf : rest.length + 1 < fuel)
+    (hhead : ∀ l ∈ head, isFmt l = false ∧ startsWith l (sL "$RXN") = false) (hm : isFmt m = true)
+    (hb : WFRBlock bufSize b) (hfirst : head.length + 1 + b.length < bufSize)
+    (hrest : ∀ p ∈ rest, isFmt p.1 = true ∧ WFRBlock bufSize p.2)
+    (hnc : NoCrash (rs ⟨b, rdfMStart b⟩)) (hncs : ∀ p ∈ rest, NoCrash (rs ⟨p.2, rdfMStart p.2⟩)) :
+    rdfIterate rs bufSize fuel 0 (head ++ rdfTail ((m, b) :: rest)) =
+      ((okPart (rs ⟨b, rdfMStart b⟩)).toList ++ rest.filterMap (fun p => okPart (rs ⟨p.2, rdfMStart p.2⟩)), none) :=
+  rdfIterate_render rs bufSize head m b rest fuel hf hhead hm hb hfirst hrest hnc hncs
+
+/-- hypotheses satisfiable: header, a molecule record with metadata, a damaged record, a reaction record -/
+example : (∀ l ∈ [sL "$RDFILE 1\n", sL "$DATM    01/01/26 00:00\n"], isFmt l = false ∧ startsWith l (sL "$RXN") = false) ∧
+    isFmt (sL "$MFMT\n") = true ∧ isFmt (sL "$RFMT\n") = true ∧
+    WFRBlock 100 [sL "title\n", sL "M  END\n", sL "$DTYPE k\n", sL "$DATUM v\n"] ∧ WFRBlock 100 [sL "garbage $MFMT\n"] ∧
+    rdfMStart [sL "title\n", sL "M  END\n", sL "$DTYPE k\n", sL "$DATUM v\n"] = 2 :=
+  ⟨by decide, by decide, by decide, ⟨by decide, by decide, by decide⟩, ⟨by decide, by decide, by decide⟩, by decide⟩
 
 end ChythonModel.Props.C11
